@@ -134,6 +134,45 @@ def run_functions(chk: core.Check, thorough: bool):
                 o2 = np.asarray(fn(*[a.reshape(2, -1) for a in arrs]))
                 if o2.shape != (2, n // 2) or not same(o2.ravel(), ref_arr):
                     bad("2-d numpy array", dt, str(o2.shape), str((2, n // 2))); return
+            # other memory representations of the same integers: non-native byte order, Fortran-ordered / transposed 2-d arrays; the same array
+            # object passed twice (the call must not modify its input)
+            if dt in ("uint32", "int64", "uint16", "int32") and fits(cols, dt):
+                reps = {}
+                be = np.dtype(dt).newbyteorder(">")
+                reps["big-endian array"] = [np.asarray(c).astype(be) for c in cols]
+                if n % 2 == 0:
+                    reps["Fortran-ordered 2-d array"] = [np.asfortranarray(a.reshape(2, -1)) for a in arrs]
+                    reps["transposed 2-d array"] = [a.reshape(-1, 2).T for a in arrs]
+                for rlabel, ra in reps.items():
+                    keep = [np.array(x, copy=True) for x in ra]
+                    try:
+                        o1 = np.asarray(fn(*ra)); o2 = np.asarray(fn(*ra))
+                    except Exception as ex:
+                        unsupported[f"{name}:{dt}:{rlabel}"] = f"{type(ex).__name__}"
+                        continue
+                    chk.count(n, key=f"{name}-{rlabel}-{dt}")
+                    chk.hist("layout", rlabel)
+                    want = ref_arr if rlabel == "big-endian array" else (ref_arr.reshape(2, -1) if "Fortran" in rlabel else ref_arr.reshape(-1, 2).T)
+                    if not (same(o1, want) and same(o2, want)):
+                        bad(rlabel + (" (second call on the same object)" if same(o1, want) else ""), dt, np.asarray(o1 if not same(o1, want) else o2).ravel().tolist()[:12], np.asarray(want).ravel().tolist()[:12]); return
+                    if any(not np.array_equal(np.asarray(x).astype(np.int64), k.astype(np.int64)) for x, k in zip(ra, keep)):
+                        bad(rlabel + ": input array after the call", dt, [np.asarray(x).ravel().tolist()[:6] for x in ra], [k.ravel().tolist()[:6] for k in keep]); return
+            # multi-argument functions with mixed representations: one argument a Python int (broadcast), the others arrays of this dtype
+            if len(cols) >= 2 and dt in ("uint8", "uint16", "int64", "uint32"):
+                for j in range(len(cols)):
+                    big = int(np.argmax(cols[j]))                     # the largest value of that column as the scalar
+                    args = [int(cols[j][big]) if k == j else arrs[k] for k in range(len(cols))]
+                    want_m = np.asarray([fn(*[int(cols[k][big]) if k == j else int(cols[k][i]) for k in range(len(cols))]) for i in range(n)])
+                    try:
+                        om = np.asarray(fn(*args))
+                    except Exception as ex:
+                        unsupported[f"{name}:{dt}:python-int-arg{j}"] = f"{type(ex).__name__}: {str(ex)[:60]}"
+                        continue
+                    chk.count(n, key=f"{name}-mixed-{dt}-{j}")
+                    chk.hist("layout", "python int + arrays")
+                    if not same(om, want_m):
+                        i = int(np.nonzero(om.astype(np.float64) != want_m.astype(np.float64))[0][0]) if om.shape == want_m.shape else 0
+                        bad(f"a Python int for argument {j} and {dt} arrays for the others", dt, om.tolist()[i] if om.shape == want_m.shape else str(om.shape), want_m.tolist()[i], {"python_int_argument": int(cols[j][big]), "element": i}); return
             # containers with zero elements (after a cut removed every hit): empty result of the same structure, no exception
             empties = [("empty numpy array", lambda a: a[:0], lambda o: np.asarray(o).shape == (0,)),
                        ("empty 2-d numpy array", lambda a: a[:0].reshape(0, 3), lambda o: np.asarray(o).shape == (0, 3)),
